@@ -237,8 +237,8 @@ func init() {
 		ID:          "C14",
 		Level:       "model_checking",
 		Technique:   "exhaustive enumeration of binary COPY streams (table shapes x row sets x NULL placements x trailer) x all splits into CopyData messages up to a cut bound x single corruptions, decoded by the real BinaryCopyReader inside a live session and compared with what an independent encoder produced",
-		Rule:        "tables of 1-3 columns over int4/text/bool (+int8/float8/bytea thorough), 0-2 rows with every NULL placement, trailer present/absent; every split with <= k cuts (deviation = one cut), uniform chunk sizes, empty CopyData interleaved; corruptions: field count +1/-1/0/65535, field length beyond the data / 0xFFFFFFFE, every truncation point",
-		Assumptions: []string{"header flags and extension length are 0 (the statement only requires the standard header)", "a stream truncated exactly at a row boundary is indistinguishable from a trailer-less stream and must decode cleanly"},
+		Rule:        "tables of 1-3 columns over int4/text/bool (+int8/float8/bytea thorough), 0-2 rows with every NULL placement, trailer present/absent; every split with <= k cuts (deviation = one cut), uniform chunk sizes, empty CopyData interleaved; headers with an extension area of 1 / 7 / 40 bytes x every single cut and double cuts around the header; values of 65535 / 65536 / 70000 bytes (thorough up to 1 MiB) under 9 splits; corruptions: field count +1/-1/0/65535, field length beyond the data / 0xFFFFFFFE, every truncation point",
+		Assumptions: []string{"header flags are 0", "a stream truncated exactly at a row boundary is indistinguishable from a trailer-less stream and must decode cleanly"},
 		Enumerate:   c14Enumerate,
 		Bounds: func(tier string) map[string]any {
 			return map[string]any{"max_cuts": c14Cuts(tier), "tables": c14Tables(tier)}
@@ -299,40 +299,136 @@ func c14Extra(tier string, emit explore.Emit) {
 			}
 		}
 	}
-	// a 200 / 3000-byte text value under a message limit of 64 / 1024 bytes, split into chunks below the limit
-	for _, cfg := range []struct{ limit, size, chunk int }{{64, 200, 50}, {64, 65, 40}, {1024, 3000, 700}, {1024, 1025, 1000}} {
+	for _, cfg := range c14BigValueConfigs() {
 		cfg := cfg
-		val := bytes.Repeat([]byte{'v'}, cfg.size)
-		stream := pgproto.Cat(pgproto.BinaryCopyHeader(), pgproto.BinaryCopyTuple([][]byte{{0, 0, 0, 9}, val}), pgproto.BinaryCopyTrailer())
-		var cuts []int
-		for c := cfg.chunk; c < len(stream); c += cfg.chunk {
-			cuts = append(cuts, c)
-		}
 		emit(explore.Case{Family: "value-larger-than-limit", Size: 1,
 			Desc: func() any {
 				return map[string]any{"message_limit": cfg.limit, "text_value_bytes": cfg.size, "copydata_chunk": cfg.chunk}
 			},
-			Run: func() explore.Result {
-				var res explore.Result
-				res.Outcome = "split"
-				res.Key = fmt.Sprint("big-value", cfg)
-				o, eng := c14ServeWith([]string{"int4", "text"}, splitAt(stream, cuts), pgproto.CopyDone(), cfg.limit)
-				if eng != "" {
-					res.Engine = eng
+			Run: func() explore.Result { return c14BigValue(cfg) }})
+	}
+}
+
+type c14BigCfg struct{ limit, size, chunk int }
+
+// c14BigValueConfigs: a 200 / 3000-byte text value under a message limit of 64 / 1024 bytes, split into CopyData
+// messages below the limit (also used by C10: every single message is within the limit, so all are processed)
+func c14BigValueConfigs() []c14BigCfg {
+	return []c14BigCfg{{64, 200, 50}, {64, 65, 40}, {64, 100, 50}, {1024, 3000, 700}, {1024, 1025, 1000}, {4096, 6000, 4000}, {65536, 100000, 65000}}
+}
+
+func c14BigValue(cfg c14BigCfg) explore.Result {
+	var res explore.Result
+	res.Outcome = "split"
+	res.Key = fmt.Sprint("big-value", cfg)
+	val := bytes.Repeat([]byte{'v'}, cfg.size)
+	stream := pgproto.Cat(pgproto.BinaryCopyHeader(), pgproto.BinaryCopyTuple([][]byte{{0, 0, 0, 9}, val}), pgproto.BinaryCopyTrailer())
+	var cuts []int
+	for c := cfg.chunk; c < len(stream); c += cfg.chunk {
+		cuts = append(cuts, c)
+	}
+	o, eng := c14ServeWith([]string{"int4", "text"}, splitAt(stream, cuts), pgproto.CopyDone(), cfg.limit)
+	if eng != "" {
+		res.Engine = eng
+		return res
+	}
+	want := []string{fmt.Sprintf("[9 %q]", val)}
+	res.Trans = []string{fmt.Sprintf("limit=%d|value %d bytes in %d-byte chunks|decoded", cfg.limit, cfg.size, cfg.chunk)}
+	if !sameStrings(o.rows, want) || o.final != "eof" {
+		res.Fail("well-formed-stream-rejected", fmt.Sprintf("message limit %d, a %d-byte value sent in CopyData messages of %d bytes (each below the limit): reader ended with %q after %d rows", cfg.limit, cfg.size, cfg.chunk, o.final, len(o.rows)))
+	}
+	return res
+}
+
+// c14Header: streams whose header carries a non-empty extension area (the format allows it; readers skip it),
+// and values of 64 KiB and more: every split must decode to the same rows.
+func c14Header(tier string, emit explore.Emit) {
+	rows := pgproto.Cat(pgproto.BinaryCopyTuple([][]byte{{0, 0, 0, 1}, []byte("one")}), pgproto.BinaryCopyTuple([][]byte{{0, 0, 0, 2}, nil}), pgproto.BinaryCopyTuple([][]byte{{0, 0, 0, 3}, []byte("")}))
+	want := []string{`[1 "one"]`, `[2 <nil>]`, `[3 ""]`}
+	for _, ext := range []int{1, 7, 40} {
+		stream := pgproto.Cat(pgproto.CopySignature, pgproto.Be32(0), pgproto.Be32(uint32(ext)), bytes.Repeat([]byte{0xEE}, ext), rows, pgproto.BinaryCopyTrailer())
+		var cutSets [][]int
+		cutSets = append(cutSets, nil)
+		for a := 1; a < len(stream); a++ {
+			cutSets = append(cutSets, []int{a})
+			if tier == "thorough" || ext <= 7 {
+				for b := a + 1; b < len(stream) && b < 19+ext+12; b++ {
+					cutSets = append(cutSets, []int{a, b})
+				}
+			}
+		}
+		for _, cuts := range cutSets {
+			cuts, ext := cuts, ext
+			emit(explore.Case{Family: "header-extension", Size: len(cuts),
+				Desc: func() any { return map[string]any{"header_extension_bytes": ext, "cuts": cuts, "rows": want} },
+				Run: func() explore.Result {
+					var res explore.Result
+					res.Outcome = "split"
+					res.Key = fmt.Sprint("ext", ext, cuts)
+					o, eng := c14ServeWith([]string{"int4", "text"}, splitAt(stream, cuts), pgproto.CopyDone(), 0)
+					if eng != "" {
+						res.Engine = eng
+						return res
+					}
+					res.Trans = []string{fmt.Sprintf("header+extension|%d cuts|decoded", len(cuts))}
+					if !sameStrings(o.rows, want) || o.final != "eof" {
+						res.Fail("split-dependent", fmt.Sprintf("header extension area of %d bytes, stream split at %v: rows %v, reader ended with %q; expected %v", ext, cuts, o.rows, o.final, want))
+					}
 					return res
-				}
-				want := []string{fmt.Sprintf("[9 %q]", val)}
-				res.Trans = []string{fmt.Sprintf("limit=%d|value %d bytes in %d-byte chunks|decoded", cfg.limit, cfg.size, cfg.chunk)}
-				if !sameStrings(o.rows, want) || o.final != "eof" {
-					res.Fail("well-formed-stream-rejected", fmt.Sprintf("message limit %d, a %d-byte value sent in CopyData messages of %d bytes (each below the limit): reader ended with %q after %d rows", cfg.limit, cfg.size, cfg.chunk, o.final, len(o.rows)))
-				}
-				return res
-			}})
+				}})
+		}
+	}
+	sizes := []int{65535, 65536, 70000}
+	if tier == "thorough" {
+		sizes = append(sizes, 65537, 131072, 200000, 1<<20)
+	}
+	for _, size := range sizes {
+		val := make([]byte, size)
+		for i := range val {
+			val[i] = byte('a' + i%23)
+		}
+		stream := pgproto.Cat(pgproto.BinaryCopyHeader(), pgproto.BinaryCopyTuple([][]byte{{0, 0, 0, 9}, val}), pgproto.BinaryCopyTuple([][]byte{{0, 0, 0, 8}, []byte("tail")}), pgproto.BinaryCopyTrailer())
+		valueStart := 19 + 2 + 4 + 4 + 4
+		uniform := func(c int) []int {
+			var cuts []int
+			for x := c; x < len(stream); x += c {
+				cuts = append(cuts, x)
+			}
+			return cuts
+		}
+		for name, cuts := range map[string][]int{"one message": nil, "cut at the start of the value": {valueStart}, "cut 100 bytes into the value": {valueStart + 100},
+			"cut 1 byte before the end of the value": {valueStart + size - 1}, "cuts 100 bytes into the value and 100 before its end": {valueStart + 100, valueStart + size - 100},
+			"8192-byte messages": uniform(8192), "65536-byte messages": uniform(65536), "65535-byte messages": uniform(65535), "3 equal messages": uniform(len(stream)/3 + 1)} {
+			name, cuts, size := name, cuts, size
+			emit(explore.Case{Family: "large-value", Size: len(cuts),
+				Desc: func() any { return map[string]any{"value_bytes": size, "split": name} },
+				Run: func() explore.Result {
+					var res explore.Result
+					res.Outcome = "split"
+					res.Key = fmt.Sprint("large", size, name)
+					o, eng := c14ServeWith([]string{"int4", "text"}, splitAt(stream, cuts), pgproto.CopyDone(), 4<<20)
+					if eng != "" {
+						res.Engine = eng
+						return res
+					}
+					res.Trans = []string{fmt.Sprintf("value %d bytes|%s|decoded", size, name)}
+					want := []string{fmt.Sprintf("[9 %q]", val), `[8 "tail"]`}
+					if !sameStrings(o.rows, want) || o.final != "eof" {
+						got := fmt.Sprint(len(o.rows), " rows")
+						if len(o.rows) > 0 && len(o.rows[0]) > 60 {
+							got += ", first begins " + o.rows[0][:60]
+						}
+						res.Fail("split-dependent", fmt.Sprintf("a %d-byte value, %s: reader ended with %q, %s; the single-message decoding is 2 rows, first begins %s", size, name, o.final, got, want[0][:60]))
+					}
+					return res
+				}})
+		}
 	}
 }
 
 func c14Enumerate(tier string, emit explore.Emit) {
 	c14Extra(tier, emit)
+	c14Header(tier, emit)
 	for _, table := range c14Tables(tier) {
 		nc := len(table)
 		for rows := 0; rows <= 2; rows++ {
